@@ -235,29 +235,29 @@ pub fn gen_fail(seed: u64, n: usize, out: &mut String) {
         if s.len() > 1500 { continue; }
         c.bs = bs;
         let samples = sig::fmt_samples(&s);
-        let mode = if r.chance(1, 3) { "m" } else { "s" };
-        for _ in 0..6 {
+        let mode0 = if r.chance(1, 3) { "m" } else { "s" };
+        for q in 0..6 {
             let kspec = match r.below(4) { 0 => format!("a{}", r.below(60)), 1 => "p1000".to_string(), _ => format!("p{}", r.below(1000)) };
+            // half of the cases write the whole stream, the other half one component directly to the failing sink
+            let mode = if q % 2 == 0 { mode0.to_string() } else {
+                match r.below(6) { 0 => format!("f{}", r.below(4)), 1 => format!("h{}", r.below(4)),
+                                   2 | 3 => format!("u{}.{}", r.below(4), r.below(8)), _ => format!("r{}.{}", r.below(4), r.below(8)) } };
             writeln!(out, "FAIL f{} {} {} {} {} {} {} {} {}", i, kspec, mode, c.encode(), rate, ch, bps, bs, samples).unwrap();
             i += 1;
         }
     }
 }
 
-pub fn run_fail(id: &str, rest: &str) -> String {
-    let t: Vec<&str> = rest.splitn(3, ' ').collect();
-    let (kspec, mode) = (t[0], t[1]);
-    let mut c = parse(t[2]);
-    if mode == "m" { c.cfg.mt = true; c.cfg.workers = Some(2); }
-    let stream = match encode(&c) { Ok(s) => s, Err(e) => return format!("{} enc-{}", id, e) };
+/// One component written to (a) a recording sink, (b) a byte sink, (c) a sink failing at call k, (d) a byte sink again.
+fn fail_one<T: BitRepr>(id: &str, comp: &T, kspec: &str) -> String {
     let mut probe = UserSink::new(None); probe.record_ops = false;
-    if stream.write(&mut probe).is_err() { return format!("{} probe-err", id); }
+    if comp.write(&mut probe).is_err() { return format!("{} probe-err", id); }
     let mut first = ByteSink::new();
-    let reference = match stream.write(&mut first) { Ok(()) => crate::s_hist::fnv_bytes(first.as_slice()), Err(_) => "err".to_string() };
+    let reference = match comp.write(&mut first) { Ok(()) => crate::s_hist::fnv_bytes(first.as_slice()), Err(_) => "err".to_string() };
     let total = probe.ops.len();
     let k = if kspec.starts_with('a') { kspec[1..].parse::<usize>().unwrap() } else { total * kspec[1..].parse::<usize>().unwrap() / 1000 };
     let mut sink = UserSink::new(Some(k));
-    let r = stream.write(&mut sink);
+    let r = comp.write(&mut sink);
     let verdict = match r {
         Ok(()) => "ok".to_string(),
         Err(flacenc::error::OutputError::Sink(_)) => "err-sink".to_string(),
@@ -266,9 +266,42 @@ pub fn run_fail(id: &str, rest: &str) -> String {
     // accepted calls: too long to print in full; print count, a digest of the calls and the bits
     let mut h: u64 = 0xcbf29ce484222325;
     for o in &sink.ops { for b in o.bytes() { h ^= b as u64; h = h.wrapping_mul(0x100000001b3); } h ^= 0x20; h = h.wrapping_mul(0x100000001b3); }
-    // afterwards the same stream is written once more, on the same thread, into a healthy sink: a failed
+    // afterwards the same component is written once more, on the same thread, into a healthy sink: a failed
     // write must not leave anything behind that changes a later one
     let mut again = ByteSink::new();
-    let retry = match stream.write(&mut again) { Ok(()) => crate::s_hist::fnv_bytes(again.as_slice()), Err(_) => "err".to_string() };
+    let retry = match comp.write(&mut again) { Ok(()) => crate::s_hist::fnv_bytes(again.as_slice()), Err(_) => "err".to_string() };
     format!("{} {} k={} total={} accepted={} calls={:016x} bits={} ref={} retry={}", id, verdict, k, total, sink.ops.len(), h, sink.bits.len(), reference, retry)
+}
+
+/// mode: s | m (whole stream, single / multi thread) | f<i> frame i | h<i> header of frame i | u<i>.<j> subframe j of
+/// frame i | r<i>.<j> the residual of that subframe (the subframe itself when it has none); indices are taken modulo
+/// the number of frames / subframes.  Components are written DIRECTLY to the failing user sink.
+pub fn run_fail(id: &str, rest: &str) -> String {
+    let t: Vec<&str> = rest.splitn(3, ' ').collect();
+    let (kspec, mode) = (t[0], t[1]);
+    let mut c = parse(t[2]);
+    if mode == "m" { c.cfg.mt = true; c.cfg.workers = Some(2); } else if mode != "s" { c.cfg.mt = false; }
+    let stream = match encode(&c) { Ok(s) => s, Err(e) => return format!("{} enc-{}", id, e) };
+    if mode == "s" || mode == "m" { return fail_one(id, &stream, kspec); }
+    let (kind, idx) = mode.split_at(1);
+    let mut it = idx.split('.');
+    let i: usize = it.next().unwrap_or("0").parse().unwrap_or(0);
+    let j: usize = it.next().unwrap_or("0").parse().unwrap_or(0);
+    if stream.frame_count() == 0 { return format!("{} no-component", id); }
+    let frame = stream.frame(i % stream.frame_count()).unwrap();
+    match kind {
+        "f" => fail_one(id, frame, kspec),
+        "h" => fail_one(id, frame.header(), kspec),
+        _ => {
+            let sf = frame.subframe(j % frame.subframe_count()).unwrap();
+            if kind == "r" {
+                match sf {
+                    flacenc::component::SubFrame::FixedLpc(x) => return fail_one(id, x.residual(), kspec),
+                    flacenc::component::SubFrame::Lpc(x) => return fail_one(id, x.residual(), kspec),
+                    _ => {}
+                }
+            }
+            fail_one(id, sf, kspec)
+        }
+    }
 }
